@@ -211,7 +211,12 @@ func checkC09Run(h *HistSpec) Result {
 	// the flags of %+v and %#v are not handed to the safe methods: the
 	// payloads land unchanged under these directives too
 	if exact {
-		for _, d := range []string{"%+v", "%#v"} {
+		ds := []string{"%+v", "%#v"}
+		if flagInsensitive(h.Ops) {
+			// (SafeInt, SafeUint and SafeFloat use the active width and flags)
+			ds = append(ds, "%8v", "%-6.1v", "%08.3v", "% x", "%q")
+		}
+		for _, d := range ds {
 			o := []byte(redact.Sprintf(d, newSafeFmtV(h.Ops, 0)))
 			if err := checkPrefix("SafeFormat method under "+d, h.Ops, o); err != nil {
 				return fail(err)
